@@ -591,6 +591,17 @@ fn linearizable(sc: &Scen, log: &[Ev]) -> Option<Fail> {
                 m.clear();
                 true
             }
+            // fetch_with: a hit returns the current value; a miss loads a fresh value (the harness loader hands
+            // out ids >= 1000, each once) and makes it the current one
+            Op::FetchWith(k) => match m.get(k).copied() {
+                Some(cur) => trust || e.result == Some(cur),
+                None => {
+                    if let Some(v) = e.result {
+                        m.insert(*k, v);
+                    }
+                    trust || e.result.map_or(false, |v| v >= 1000)
+                }
+            },
             _ => true,
         }
     }
@@ -670,6 +681,17 @@ fn scenarios(tier: &str) -> Vec<Scen> {
         Scen { name: "c15/async-two-callers-one-key".into(), props: p(&["C15"]), loader: true, threads: vec![vec![SOp::FetchWith(0)], vec![SOp::FetchWith(0)]], oracle: "loader cost".into(), async_threads: all(2), ..base.clone() },
         Scen { name: "c15/mixed-callers-one-key".into(), props: p(&["C15"]), loader: true, threads: vec![vec![SOp::FetchWith(0)], vec![SOp::FetchWith(0)]], oracle: "loader cost".into(), async_threads: vec![false, true], ..base.clone() },
         Scen { name: "c15/async-loader-two-callers".into(), props: p(&["C15"]), loader: true, async_loader: true, threads: vec![vec![SOp::FetchWith(0)], vec![SOp::FetchWith(0)]], oracle: "loader cost".into(), async_threads: all(2), ..base.clone() },
+    ]);
+    v.extend(vec![
+        // ---- a loaded value obeys the register too: once fetch_with has returned it, a completed invalidate / remove
+        //      of that key is final (the loader must not publish the value into the map after handing it out)
+        Scen { name: "c11/fetch_with-then-invalidate-then-peek".into(), props: p(&["C11", "C15"]), loader: true, threads: vec![vec![SOp::FetchWith(0), SOp::Invalidate(0), SOp::Peek(0)]], oracle: "linear cost".into(), ..base.clone() },
+        Scen { name: "c11/async-loader-fetch_with-then-invalidate-then-peek".into(), props: p(&["C11", "C15"]), loader: true, async_loader: true, threads: vec![vec![SOp::FetchWith(0), SOp::Invalidate(0), SOp::Peek(0)]], oracle: "linear cost".into(), async_threads: all(1), ..base.clone() },
+        Scen { name: "c11/async-loader-fetch_with-vs-remove-then-fetch".into(), props: p(&["C11", "C15"]), loader: true, async_loader: true, threads: vec![vec![SOp::FetchWith(0)], vec![SOp::Remove(0), SOp::Fetch(0)]], oracle: "linear cost".into(), async_threads: all(2), ..base.clone() },
+        // ---- stale-while-revalidate: two stale hits while the refresh is in flight, then the key is removed and
+        //      missed: the caller joins the refresh (or starts a load) and must come back
+        Scen { name: "c15/stale-hits-during-refresh-then-remove-then-miss".into(), props: p(&["C15"]), loader: true, ttl_s: Some(10), grace_s: Some(10), setup: vec![SOp::FetchWith(0)], advance_after_setup_s: 12, threads: vec![vec![SOp::FetchWith(0), SOp::FetchWith(0), SOp::Remove(0), SOp::FetchWith(0)]], oracle: "stale".into(), ..base.clone() },
+        Scen { name: "c15/async-stale-hits-during-refresh-then-remove-then-miss".into(), props: p(&["C15"]), loader: true, ttl_s: Some(10), grace_s: Some(10), setup: vec![SOp::FetchWith(0)], advance_after_setup_s: 12, threads: vec![vec![SOp::FetchWith(0), SOp::FetchWith(0), SOp::Remove(0), SOp::FetchWith(0)]], oracle: "stale".into(), async_threads: all(1), ..base.clone() },
     ]);
     if !quick {
         v.push(Scen { name: "c15/async-three-callers-one-key".into(), props: p(&["C15"]), loader: true, threads: vec![vec![SOp::FetchWith(0)], vec![SOp::FetchWith(0)], vec![SOp::FetchWith(0)]], oracle: "loader cost".into(), async_threads: vec![true, false, true], ..base.clone() });
